@@ -202,6 +202,53 @@ func (w *siteWalker) response(resp *spec.Response, codeStr, urlPath string) {
 	}
 }
 
+// unreferencedShared: the parameters and responses declared at the top level that no operation refers to; the
+// validators never reach them (they are only warned about as unused)
+func unreferencedShared(c *specCase) (nodes []siteNode) {
+	defer func() {
+		if r := recover(); r != nil {
+			nodes = nil
+			validate.VerifReset(validate.VerifOff, false)
+		}
+	}()
+	doc, err := loadDoc(c)
+	if err != nil {
+		return nil
+	}
+	raw := string(doc.Raw())
+	next := 1000000
+	for _, kind := range []string{"default", "example"} {
+		w := &siteWalker{kind: kind, root: doc.Spec(), nextID: &next, group: -1}
+		pk := make([]string, 0)
+		for k := range doc.Spec().Parameters {
+			pk = append(pk, k)
+		}
+		sort.Strings(pk)
+		for _, k := range pk {
+			b, _ := json.Marshal("#/parameters/" + k)
+			if strings.Contains(raw, string(b)) {
+				continue
+			}
+			w.param(doc.Spec().Parameters[k])
+		}
+		rk := make([]string, 0)
+		for k := range doc.Spec().Responses {
+			rk = append(rk, k)
+		}
+		sort.Strings(rk)
+		for _, k := range rk {
+			b, _ := json.Marshal("#/responses/" + k)
+			if strings.Contains(raw, string(b)) {
+				continue
+			}
+			r := doc.Spec().Responses[k]
+			w.response(&r, k, "#/responses/"+k)
+		}
+		nodes = append(nodes, w.nodes...)
+	}
+	return nodes
+}
+
 func enumerateSites(c *specCase) (nodes []siteNode, note string) {
 	defer func() {
 		if r := recover(); r != nil {
@@ -292,6 +339,7 @@ func sitesRun(in *bufio.Scanner, out *bufio.Writer) {
 			rec["skip"] = note
 		}
 		rec["sites"] = nodes
+		rec["unwalked"] = unreferencedShared(&c)
 		runs := map[string]specRun{}
 		for _, cont := range []bool{false, true} {
 			runs[fmt.Sprintf("cont=%v", cont)] = runSpec(&c, cont, true)
